@@ -539,6 +539,8 @@ class TemplateEval:
             recv_is_self = isinstance(f.value, ast.Name) and (f.value.id in ('self', 'cls') or self.is_own_class(f.value.id))
             if not recv_is_self:
                 o = self.expr(f.value, env, guard, depth)
+                if leaf == 'format' and isinstance(o, str) and not e.keywords:
+                    return self.str_format(o, [self.expr(a, env, guard, depth) for a in args])
                 if leaf == 'join' and isinstance(o, str) and len(args) == 1:
                     v = self.expr(args[0], env, guard, depth)
                     if isinstance(v, tuple):
@@ -604,6 +606,41 @@ class TemplateEval:
             if cl is not None:
                 return self.apply(cl, e, env, guard, depth)
         return U(f'`{norm(e)[:40]}`')
+
+    def str_format(self, fmt: str, vals):
+        """'{}-{}'.format(a, b) / '{0}.{1}'.format(a, b) with plain fields only"""
+        import string
+        parts, auto = [], 0
+        try:
+            parsed = list(string.Formatter().parse(fmt))
+        except ValueError:
+            return U('format string')
+        for lit, field, spec, conv in parsed:
+            if lit:
+                parts.append(lit)
+            if field is None:
+                continue
+            if spec or conv:
+                return U('format spec')
+            if field == '':
+                i = auto
+                auto += 1
+            elif field.isdigit():
+                i = int(field)
+            else:
+                return U('format field')
+            if i >= len(vals):
+                return U('format arity')
+            v = vals[i]
+            if isinstance(v, S):
+                parts += list(v.parts)
+            elif isinstance(v, (Ent, Rep, Inh, str)):
+                parts.append(v)
+            elif is_const(v):
+                parts.append(str(v))
+            else:
+                parts.append(v if isinstance(v, U) else U('formatted value'))
+        return S(_squash(tuple(parts)))
 
     def path_join(self, args, env, guard, depth):
         out = L()
